@@ -97,7 +97,7 @@ func genC12(t *rapid.T) any {
 	var ranges [][2]int // [first id, last id] of statements in ranges, to keep ranges disjoint
 	for i := 0; i < n && len(cands) > 0; i++ {
 		r := cands[rapid.IntRange(0, len(cands)-1).Draw(t, "target")]
-		d := C12Dir{Target: r.s.ID, Marker: rapid.SampledFrom([]string{"//", "#", "/*"}).Draw(t, "marker")}
+		d := C12Dir{Target: r.s.ID, Marker: rapid.SampledFrom([]string{"//", "#", "/*", "//", "#", "/*", "/*tight", "//tab", "#tight"}).Draw(t, "marker")}
 		if rapid.IntRange(0, 2).Draw(t, "withrules") == 0 {
 			k := rapid.IntRange(1, 2).Draw(t, "nrules")
 			for j := 0; j < k; j++ {
@@ -157,7 +157,7 @@ func genC12(t *rapid.T) any {
 				d.Rules = []string{rapid.SampledFrom(c12Rules).Draw(t, "rule")}
 			}
 			c.Dirs = append(c.Dirs, d)
-			d2 := C12Dir{Kind: "next", Target: r.s.ID, Slot: 2, Marker: rapid.SampledFrom([]string{"//", "#", "/*"}).Draw(t, "marker2")}
+			d2 := C12Dir{Kind: "next", Target: r.s.ID, Slot: 2, Marker: rapid.SampledFrom([]string{"//", "#", "/*", "/*tight", "//tab", "#tight"}).Draw(t, "marker2")}
 			if rapid.IntRange(0, 3).Draw(t, "second-all") > 0 {
 				d2.Rules = []string{rapid.SampledFrom(c12Rules).Draw(t, "rule2")}
 			}
@@ -309,6 +309,12 @@ func directiveText(marker, word string, rules []string) string {
 		return "# " + body
 	case "/*":
 		return "/* " + body + " */"
+	case "/*tight": // no blank between the directive and the comment markers
+		return "/*" + body + "*/"
+	case "//tab":
+		return "//\t" + body + "\t"
+	case "#tight":
+		return "#" + body
 	}
 	return "// " + body
 }
